@@ -252,6 +252,18 @@ def check_guards(ctx, unit, table):
                         bad.append("%s writes the ownership flag at %s" % (f.name, n.loc))
             ctx.inst("G.other", "%s::<other members>" % cls, not bad, rec["loc"],
                      "; ".join(bad) if bad else "%d other members examined (instantiation %s)" % (n_other, tag))
+            # assignment: by value + swap (old ownership is released by the parameter's destructor)
+            for f in members:
+                if f.name == "operator=":
+                    ps = f.params()
+                    byval = len(ps) == 1 and not ps[0]["t"].rstrip().endswith("&")
+                    sw = [n for n in f.events() if n.kind == "CallExpr" and n.callee
+                          and own.get(n.callee["did"]) == "swap"]
+                    okk = byval and len(sw) == 1 and {path(a) for a in sw[0].args} == {("this",), ("p:%s#%d" % (ps[0]["n"], ps[0]["d"]),)}
+                    ctx.rule("G.assign", "guard assignment takes its argument by value and swaps *this with it "
+                             "(so the previous ownership is released exactly once by the parameter's destructor)", 1)
+                    ctx.inst("G.assign", "%s::operator=" % cls, okk, f.loc,
+                             "by-value parameter: %s; swap(*this, param) calls: %d (instantiation %s)" % (byval, len(sw), tag), f)
             # type-level
             sp = rec["special"]
             cc = [m for m in rec["methods"] if m.get("copy")]
